@@ -141,7 +141,7 @@ func (w *c16Wire) read() c16WireReply {
 		}
 		rp.code, _ = strconv.Atoi(line[:3])
 		rest := line[4:]
-		if f := strings.SplitN(rest, " ", 2); len(strings.Split(f[0], ".")) == 3 && f[0][0] >= '2' && f[0][0] <= '5' {
+		if f := strings.SplitN(rest, " ", 2); len(strings.Split(f[0], ".")) == 3 && f[0][0] >= '0' && f[0][0] <= '9' {
 			ok := true
 			for _, p := range strings.Split(f[0], ".") {
 				if _, err := strconv.Atoi(p); err != nil {
